@@ -286,6 +286,55 @@ def entry_points(chk, facts):
     chk.floor(rule, "entry points", n, 3)
 
 
+def api_entries(chk, facts):
+    """'This holds equally through every entry point that takes a schema': every public API function with an optional schema
+    parameter hands that schema on to the core function that does the work (it is never dropped or replaced by None)."""
+    from lib import xlabels
+    rule = "C11.ENTRY.api"
+    facts.load_crate("cedar_policy.lib")
+    n = 0
+    TRIVIAL = ("::map", "::as_ref", "::is_some", "::is_none", "::clone", "::copied", "::cloned", "::unwrap_or", "::and_then", "::ok_or", "::ok_or_else", "::as_deref", "::into", "::from", "::borrow", "::deref")
+    for name in facts.unit_fns("cedar_policy.lib"):
+        gen, kind, root, ti, file, line = facts.fns.meta(name)
+        if gen or kind == "Closure" or not file.endswith(("src/api.rs", "src/api/tpe.rs")) or "::test" in name:
+            continue
+        f = facts.fns[name]
+        if not f.r.get("pub"):
+            continue
+        ps = [i for i in range(1, f.nargs + 1) if "Schema" in f.locals[i] and "Option<" in f.locals[i]]
+        if not ps:
+            continue
+        consumers = set()
+        for g, L in xlabels.bodies_with_labels(facts, f, None, param_labels={i: {"SCHEMA"} for i in ps}):
+            for b, t in g.calls():
+                c = callee(t)
+                if c.endswith(TRIVIAL) or "{closure" in c.split("::")[-1]:
+                    continue
+                if any("SCHEMA" in L.operand_labels(o) for o in t[2]):
+                    consumers.add(c)
+        real = sorted(c for c in consumers if c.startswith(("cedar_policy_core::", "cedar_policy::api::")) and not c.endswith("CoreSchema::new"))
+        n += 1
+        chk.ob(rule, short(name).split("api::")[-1], bool(real), "the schema parameter of %s reaches %s" % (short(name), [short(c).split("::")[-1] for c in real][:3] if real else "no worker function: the schema is ignored"),
+               where=f.where(), fn=name, key="%s:%s" % (rule, name), sample={"fn": short(name), "consumers": [short(c) for c in real][:4]})
+    chk.floor(rule, "public entry points with a schema parameter", n, 15)
+    # the JSON parser builds the store with its own schema (validation happens on construction of the store)
+    g = facts.fn("cedar_policy_core::entities::json::entities::EntityJsonParser::<'_, '_, S>::parse_ejsons")
+    if g is None:
+        chk.lost(rule, "EntityJsonParser::parse_ejsons")
+    else:
+        ok = False
+        for b, t in g.calls():
+            if callee(t).endswith("entities::Entities::from_entities") and len(t[2]) >= 2:
+                o = t[2][1]
+                src = set()
+                for b2, s_ in g.stmts():
+                    if s_[0] == "a" and o[0] in ("c", "m") and s_[1] == o[1]:
+                        for p_ in shape._rv_places(s_[2]):
+                            src |= {e[2] for e in p_[1:] if isinstance(e, list) and e[0] == "f"}
+                ok = "schema" in src
+        chk.ob(rule, "parse_ejsons", ok, "entities parsed from JSON are put into a store built with the parser's own schema (self.schema): %s" % ok, where=g.where(), fn=g.name)
+
+
 def sibling(chk, facts):
     """principal / resource regions of validate_scope_variables are symmetric."""
     rule = "C11.SIBLING"
@@ -323,6 +372,7 @@ def run(chk, facts, tier):
     run_spec(chk, facts)
     euids_traversal(chk, facts)
     entry_points(chk, facts)
+    api_entries(chk, facts)
     sibling(chk, facts)
     from rules import c11_record
     c11_record.check(chk, facts)
